@@ -329,7 +329,7 @@ C10_CASES = [("2^-2^2", "0.0625"), ("2^3^2", "512"), ("-2^2", "-4"), ("2^-2", "0
              ("if false then 1 else if false then 2 else 3", "3"), ("2⁻¹", "0.5"), ("(2 + 3) 2", "10"), ("1 + 1 == 2 || false", "true"), ("4 |> sqrt |> sqrt", "1.41421"),
              ("2 ^ 3 per 4", "2"), ("-2!", "-2"), ("3 - -2", "5"), ("2 × 3 ÷ 6", "1"),
              # number literals: every documented form, combined ("without the leading zero" + scientific notation, digit separators)
-             (".5e-3", "0.0005"), (".5e+3", "500"), ("-.5e-3", "-0.0005"), ("2 - .1e-2", "1.999"), ("1.5e3", "1500"), ("1e-3", "0.001"), ("1_000.5", "1000.5"), ("1.e3", "1000"), ("1E3", "1000"), ("1_e3", "ERR"), ("1._5", "ERR"), ("1.5.2", "ERR"), (".e3", "ERR"), ("2 e", "5.43656"), ("0x1F + 1", "32"), ("0b101", "5"), ("0o17", "15"), ("0x", "ERR"), ("0b12", "ERR"),
+             ("let vx_x = 2\nvx_x%", "ERR"), ("let rate% = 5\nrate%", "5"), ("8 per%", "ERR"), ("let vx_a = 2\nlet vx_b = 3\nvx_a≤vx_b", "true"), (".5e-3", "0.0005"), (".5e+3", "500"), ("-.5e-3", "-0.0005"), ("2 - .1e-2", "1.999"), ("1.5e3", "1500"), ("1e-3", "0.001"), ("1_000.5", "1000.5"), ("1.e3", "1000"), ("1E3", "1000"), ("1_e3", "ERR"), ("1._5", "ERR"), ("1.5.2", "ERR"), (".e3", "ERR"), ("2 e", "5.43656"), ("0x1F + 1", "32"), ("0b101", "5"), ("0o17", "15"), ("0x", "ERR"), ("0b12", "ERR"),
              # calls, argument lists, field access, parenthesised and list primaries
              ("sqrt(16)", "4"), ("mod(7, 3,)", "1"), ("mod(\n7,\n3\n)", "1"), ("len([1, 2, 3])", "3"), ("[1, 2, 3,]", "[1, 2, 3]"), ("[true false]", "ERR"), ("(2 + 3", "ERR"),
              ("sqrt(16]", "ERR"), ("mod(7; 3)", "ERR"), ("head([4, 5])", "4"), ("[1, 2\n,3]", "[1, 2, 3]"), ("struct P { x: Scalar }\nP { x: 3 }.x", "3"), ("[]", "[]"), ("[\n]", "[]"),
@@ -394,7 +394,7 @@ def w_c07(seed):
 C02_CASES = [("1 m + 1 s", "TC"), ("1 m + 1 cm", "101 cm"), ("1 m < 1 s", "TC"), ("1 m -> s", "TC"), ("if true then 1 m else 1 s", "TC"), ("if 1 then 2 else 3", "TC"),
              ("let vx_l: Length = 1 s", "TC"), ("let vx_t: Time = 2 s\nvx_t", "2 s"), ("1e-310 + 1 m", "TC"), ("0 + 1 m", "1 m"), ("2 m * 3 s", "6 m·s"), ("6 m / 3 s", "2 m/s"),
              ("!1", "TC"), ("-true", "TC"), ("(2 m)^2", "4 m²"), ("2^(1 m)", "TC"), ("true && 1", "TC"), ("1 == true", "TC"), ("1 m == 1 s", "TC"), ("1 m == 100 cm", "true"),
-             ("(1 m)!", "TC"), ("3!", "6"), ("(2 m)^0 + 1", "2"), ("1 - (5 s)^(3 - 3)", "0"), ("let vx_one: Scalar = (3 s)^0\nvx_one", "1"), ("(2 m)^2 / (4 m^2) + 1", "2"), ("2 m * 3 m^-1 + 1", "7"), ("1 m - 1 kg", "TC"), ("1 m >= 2 kg", "TC"),
+             ("(1 m)!", "TC"), ("3!", "6"), ("[0, 0 + 1 s, 1 m]", "TC"), ("fn vx_wm(x, y) = [x, y, 1 m]\nvx_wm(2 m, 3 s)", "TC"), ("(2 m)^0 + 1", "2"), ("1 - (5 s)^(3 - 3)", "0"), ("let vx_one: Scalar = (3 s)^0\nvx_one", "1"), ("(2 m)^2 / (4 m^2) + 1", "2"), ("2 m * 3 m^-1 + 1", "7"), ("1 m - 1 kg", "TC"), ("1 m >= 2 kg", "TC"),
              # generic structs: the type arguments of `Name<B, A>` are substituted for the parameters simultaneously
              ("struct VxPair<A, B> { x: A, y: B }\nfn vx_swap<A, B>(p: VxPair<A, B>) -> VxPair<B, A> = VxPair { x: p.y, y: p.x }\nvx_swap(VxPair {x: 1 m, y: 2 s}).x + 1 s", "3 s"),
              ("struct VxPair<A, B> { x: A, y: B }\nfn vx_swap<A, B>(p: VxPair<A, B>) -> VxPair<B, A> = VxPair { x: p.y, y: p.x }\nvx_swap(VxPair {x: 1 m, y: 2 s}).x + 1 m", "TC"),
